@@ -517,6 +517,35 @@ def run(chk, repo, tier):
             detc = f'a path stores ptype = {fmt(v_)[:60]} [{conds_str(p)[-120:]}]: not the type the constructor was given'
     chk.ob('C08-e', 'T-override', fwi.key, 'a new wavefront carries the plane type it was given', (okc and nc_ > 0) if nc_ or not okc else None,
            detc or f'{nc_} path(s) store ptype(ptype)', fwi.loc())
+    # the same for planes: the type may be given by name ('pupil') or as None, so what the constructor stores is what
+    # lentil.ptype() makes of it - a raw store leaves a string that equals no key of the multiplication table
+    fpi = repo.func('plane.Plane.__init__')
+    _, ppaths, _ = analyse(repo, fpi)
+    okq, detq, nq_ = True, '', 0
+    for p in ppaths:
+        if p.status == 'raise':
+            continue
+        st_ = [e for e in p.events if e.kind == 'write' and e.data.get('how') == 'attrstore' and e.data.get('attr') in ('ptype', '_ptype')
+               and e.target == S('self')]
+        if not st_:
+            continue
+        nq_ += 1
+        v_ = st_[-1].data.get('value')
+        if v_ == given:
+            continue
+        if v_ == S('ptype'):
+            vetted = any(pol and 'isinstance(ptype' in fmt(c) for c, pol, _ in p.conds)
+            if not vetted:
+                okq = False
+                detq = f'a path stores the argument as it came [{conds_str(p)[-100:]}]: a type given by name stays a string'
+            continue
+        if pt_name(v_) and any(pol and fmt(c) == 'is(ptype, (None))' for c, pol, _ in p.conds) and pt_name(v_) == 'none':
+            continue
+        if okq:
+            okq = None
+            detq = f'undecided: a path stores {fmt(v_)[:60]}'
+    chk.ob('C08-e', 'T-override', fpi.key, 'a new plane carries the plane type it was given, converted by lentil.ptype', (okq if nq_ else None),
+           detq or f'{nq_} path(s) store ptype(ptype)', fpi.loc())
     fim = repo.func('plane.Image.multiply')
     for node in ast.walk(fim.node):
         if isinstance(node, ast.Assign) and any(isinstance(t, ast.Attribute) and t.attr == 'ptype' for t in node.targets):
